@@ -8,8 +8,8 @@ VERIF = Path(__file__).resolve().parents[1]
 # id -> (technique, level text, level note, design ref)
 CLAIMED = {
     "C01": (
-        "Lean 4 simulation proof: Props.C01.sound / sound_exec — every untagged end state of the model of SEVM.run's exploration core (worklist, dispatch, Exec.check, jumpi with visit counters and loop bound, --depth, Path.append/concretization), under every valuation satisfying its path, is reached by the reference EVM (Spec.Evm) with exactly that halt; no bound on program size, steps or inputs, no assumption on the solver; word instructions through C06's op_exact. Tie: exact model-vs-implementation comparison of the exploration on generated core programs with a fixed oracle, plus pointwise differential of the REAL SEVM against the Lean reference EVM on structured programs over the whole supported instruction set (memory, storage, hashing, logs, calls, creations) with solver-found and random inputs",
-        "Proof for the core instruction set (stack/word/control/calldata/environment instructions, memory MLOAD/MSTORE/MSTORE8/CALLDATACOPY/CODECOPY, RETURN/REVERT with data: the theorem covers halt kind AND returned bytes; everything else ends the model path as stuck, so the theorem is stated for all programs); storage, hashing, logs, calls and creations are covered by the differential run only (C08/C09 prove their components separately); halmos' own memory-limit errors are tagged end states about which nothing is claimed (hypothesis cfg.maxMem + 32 <= memLimit is visible in the statements). The concrete 1024-item stack limit, which halmos does not model, is an explicit disjunct of the theorem",
+        "Lean 4 simulation proof: Props.C01.sound / sound_exec — every untagged end state of the model of SEVM.run's exploration core (worklist, dispatch, Exec.check, jumpi with visit counters and loop bound, --depth, Path.append/concretization), under every valuation satisfying its path, is reached by the reference EVM (Spec.Evm) with exactly that halt, those returned bytes and that storage/transient storage of the executing account (WRel); no bound on program size, steps or inputs, no assumption on the solver; word instructions through C06's op_exact. Tie: exact model-vs-implementation comparison of the exploration on generated core programs with a fixed oracle, plus pointwise differential of the REAL SEVM against the Lean reference EVM on structured programs over the whole supported instruction set (memory, storage, hashing, logs, calls, creations) with solver-found and random inputs",
+        "Proof for the core instruction set (stack/word/control/calldata/environment instructions, memory MLOAD/MSTORE/MSTORE8/CALLDATACOPY/CODECOPY, RETURN/REVERT with data, RETURNDATASIZE/COPY, SLOAD/SSTORE/TLOAD/TSTORE on concrete slots < 2^64 with the static-context check: the theorem covers halt kind, returned bytes AND the storage of the halting world; everything else ends the model path as stuck, so the theorem is stated for all programs); an executable call machine (Model.SevmCalls: CALL/CALLCODE/DELEGATECALL/STATICCALL to literal targets with snapshot rollback) is tied to the real SEVM by the correspondence run, its simulation proof was in progress when this was written; hashing, symbolic slots, logs, value transfers and creations are covered by the differential run only (C08/C09 prove their components separately); halmos' own memory-limit errors are tagged end states about which nothing is claimed (hypothesis cfg.maxMem + 32 <= memLimit is visible in the statements). The concrete 1024-item stack limit, which halmos does not model, is an explicit disjunct of the theorem",
         "Trusted: Lean kernel, Spec.Evm as the meaning of EVM execution, Model.Sevm (hand model; int_of substitution, calldata size candidates, PUSH32 empty-keccak and the dynamic-array overflow quick check are approximated as stuck), z3 only as a search aid for inputs; known findings recorded for MSIZE, value-bearing CALL in a static frame, JUMPI with symbolic condition and invalid destination",
         "DESIGN.md §4 C01",
     ),
@@ -32,7 +32,7 @@ CLAIMED = {
         "DESIGN.md §4 C10",
     ),
     "C03": (
-        "Lean 4 composition theorem pass_sound over arbitrary path lists (PASS with no flag implies no admissible input fails, from explicit hypotheses H1 coverage [C02/C10], H2 path faithfulness [C01/C12], H3 query = path [C11/C13], H4 solver sound on unsat) + setup_single_path; end-to-end differential run of the real run_contract on generated test contracts (guarded assertion failures: equalities, inequalities, arithmetic needing refinement, hashes, array lengths, storage set in setUp; static and dynamic parameters) against brute force on the Lean reference EVM, both solvers and both storage layouts, with replay of every printed counterexample",
+        "Lean 4 composition theorem pass_sound over arbitrary path lists (PASS with no flag implies no admissible input fails, from explicit hypotheses H1 coverage [C02/C10], H2 path faithfulness [C01/C12], H3 query = path [C11/C13], H4 solver sound on unsat) + setup_single_path; Props.C03Core discharges H1 and H2 for the exploration-core machine from C02.complete and C01.sound_exec (covered_core, faithful_core, pass_sound_core: PASS + no flag + H3 + H4 imply Spec.Evm.exec never ends in a configured Panic, for every valuation; hlit_needed shows the literal-Panic-code side condition cannot be dropped); end-to-end differential run of the real run_contract on generated test contracts (guarded assertion failures: equalities, inequalities, arithmetic needing refinement, hashes, array lengths, storage set in setUp; static and dynamic parameters) against brute force on the Lean reference EVM, both solvers and both storage layouts, with replay of every printed counterexample",
         "Composition proof as strong as its premises (each premise is another property's theorem/check; the solver's soundness on unsat is a stated hypothesis); the end-to-end half is a differential exploration (no PASS on a reachable failure in ~130 tests per quick run)",
         "Trusted: Lean kernel, Spec.Evm, the artifact fabricator (hand-assembled forge JSON), external solvers yices/z3",
         "DESIGN.md §4 C03",
